@@ -333,6 +333,11 @@ Ltac bndQ x lem := match goal with |- allQ _ ?s0 (bnd _ _) =>
 Ltac tailQ x lem := match goal with |- allQ _ ?s0 _ =>
   eapply allQ_le; [eapply (allQ_weaken _ _ _ _ s0 x); [solveQ|apply lem]|num] end.
 
+Lemma allQ_parse_big : forall b t s, allQ 0 s (parse_big orc b t s).
+Proof. intros b t s. unfold parse_big, parse_rat. destruct b; try apply allQ_parse_soft. solveG; apply allQ_parse_soft. Qed.
+Lemma allQ_float_to_int : forall t s, allQ 0 s (float_to_int orc t s).
+Proof. intros t s. unfold float_to_int. bndQ s allQ_parse_soft. solveG. Qed.
+
 Ltac stepH :=
   match goal with
   | |- allQ _ _ (bnd (read_string_body _ ?x) _) => bndQ x allQ_read_string_body
@@ -341,6 +346,8 @@ Ltac stepH :=
   | |- allQ _ _ (bnd (read_float _ _ ?x) _) => bndQ x allQ_read_float
   | |- allQ _ _ (bnd (parse_force _ _ _ ?x) _) => bndQ x allQ_parse_force
   | |- allQ _ _ (bnd (parse_soft _ _ _ ?x) _) => bndQ x allQ_parse_soft
+  | |- allQ _ _ (bnd (parse_big _ _ _ ?x) _) => bndQ x allQ_parse_big
+  | |- allQ _ _ (bnd (float_to_int _ _ ?x) _) => bndQ x allQ_float_to_int
   | |- allQ _ _ (read_string_body _ ?x) => tailQ x allQ_read_string_body
   | |- allQ _ _ (read_bytes_body _ ?x) => tailQ x allQ_read_bytes_body
   | _ => stepG
